@@ -154,7 +154,8 @@ def c10_replay(run, path):
 
 
 def names_family(run, tier, fam, base_cfg):
-    cfg = run.cfg(base_cfg, {"Family": '"%s"' % fam, "MaxNodes": Q(tier, 5, 6)}, "gen.%s.cfg" % fam)
+    nodes = Q(tier, 4, 5) if fam == "C11" else Q(tier, 5, 6)
+    cfg = run.cfg(base_cfg, {"Family": '"%s"' % fam, "MaxNodes": nodes}, "gen.%s.cfg" % fam)
     rep = run.tlc_gen_replay("MC_Names", cfg, fam, timeout=Q(tier, 400, 3000))
     run.absorb(rep, VALUE_ASPECTS)
 
